@@ -28,14 +28,14 @@ def _v(fixed):
     return "v" + "".join("0" if i in fixed else "1" for i in range(1, 10))
 
 
-# Defect flags 1..9 (see Model.v).  Fixed in /repo: 1 (constant fall-back, 24c9504), 3 (expiry take-over, 58e16d0),
-# 6 (pending ACK recorded, b04c868), 7 (nil-pool guard, d114f02).  Still in HEAD (= Model.Head): 2 unchecked release,
-# 4 unresolved answer from the lease table, 5 untracked out-of-pool statics, 8 restore keeps a conflicting address,
-# 9 VRF-blind containment walk / pool override.  Variants tried, in order: repaired; HEAD; HEAD with one more defect
-# fixed; then historical trees (one of the fixed flags still present, or all).
-FIXED = {1, 3, 6, 7}
-VARIANTS = (["repaired", _v(FIXED)] + [_v(FIXED | {i}) for i in (2, 4, 5, 8, 9)] +
-            [_v(FIXED - {i}) for i in (1, 3, 6, 7)] + ["defective"])
+# Defect flags 1..9 (see Model.v).  Fixed in /repo HEAD (flag off everywhere, a regression is a VIOLATION):
+# 1 constant fall-back (24c9504), 3 expiry take-over (58e16d0), 4 unresolved answers (d5fadd1), 6 pending ACK
+# (b04c868), 7 nil pool (d114f02).  Still `known:` - 2 unchecked release, 5 untracked out-of-pool statics, 8 restore
+# keeps a conflicting address, 9 VRF-blind containment walk / pool override.
+# Variants tried, in order: repaired (no defect); head (= Model.Head, the four open findings); head with one of the
+# open findings fixed (so that fixing them one at a time keeps the check green).
+FIXED = {1, 3, 4, 6, 7}
+VARIANTS = ["repaired", _v(FIXED)] + [_v(FIXED | {i}) for i in (2, 5, 8, 9)]
 MODEL_NEEDS_IMPL = True
 RULE = ("random configurations: 1-3 IPv4 pools (0-3 addresses, exclusions, two profiles, VRFs 0/1, globally disjoint "
         "ranges, sometimes one containing 100.64.0.1), 0-2 IA_NA pools, 0-2 PD pools (/63 or /62 -> /64); 2-5 "
@@ -68,6 +68,8 @@ def gen_one(rng):
         vrf = rng.choice([0, 0, 1])
         if rng.random() < 0.12:
             lo = FALLBACK - rng.randint(0, 1)
+        elif pools4 and rng.random() < 0.25 and pools4[-1][2] != vrf and pools4[-1][4] >= pools4[-1][3]:
+            lo = pools4[-1][3]          # the same subnet in another VRF (legitimate multi-VRF deployment)
         else:
             lo = V4BASE + 256 * (i + 1) + rng.choice([1, 1, 254])
         size = rng.choice([0, 1, 1, 2, 2, 3])
@@ -145,13 +147,17 @@ def gen_one(rng):
         return "99"
 
     ops = []
+    aaa = {}   # the AAA answer of a PPPoE subscriber is stable across re-authentications (statics, VRF)
     for _ in range(rng.randint(5, 16)):
         sid, proto = rng.choice(sess)
         vrf = str(rng.choice([0, 0, 1]))
         if proto == "P":
             k = rng.random()
             if k < 0.5:
-                ops.append("PA %d %s %s %s %s %s %s %s" % (sid, vrf, a4(), a6(), apd(), ov(pools4), ov(pools6), ov(poolsd)))
+                if sid not in aaa:
+                    aaa[sid] = (vrf, a4(), a6(), apd())
+                v0, x4, x6, xd = aaa[sid]
+                ops.append("PA %d %s %s %s %s %s %s %s" % (sid, v0, x4, x6, xd, ov(pools4), ov(pools6), ov(poolsd)))
             elif k < 0.75:
                 c = rng.random()
                 if c < 0.5 and pools4:
@@ -345,10 +351,52 @@ def gen_churn(rng, stage_b):
     return " ".join(toks) + " ; " + " ; ".join(ops)
 
 
+def gen_reauth(rng):
+    """PPPoE re-authentication family: the same subnet in two VRFs (two pools of one profile), subscribers in both
+    VRFs, LCP renegotiation + re-authentication (a second PA on a started session, possibly several), teardown,
+    then new subscribers.  Teardown after the session state was rebuilt must still release only the session's own
+    lease in its own pool."""
+    n = rng.choice([1, 2, 2, 3])
+    lo = V4BASE + 256 + 1
+    toks = ["P4", "1", "0", "0", str(lo), str(lo + n - 1), "-", "P4", "2", "0", "1", str(lo), str(lo + n - 1), "-"]
+    if rng.random() < 0.5:
+        lo6 = V6BASE + (1 << 64) + 1
+        toks += ["P6", "3", "0", "0", str(lo6), str(lo6 + n - 1), "P6", "4", "0", "1", str(lo6), str(lo6 + n - 1)]
+    toks += ["G", "0", "0", "0"]
+    ns = rng.randint(3, 5)
+    for k in range(1, ns + 1):
+        toks += ["S", str(k), "P", "0", str(k)]
+    vrf = {k: rng.choice([0, 1]) for k in range(1, ns + 1)}
+    st = {k: (str(rng.randint(lo, lo + n - 1)) if rng.random() < 0.15 else "-") for k in range(1, ns + 1)}
+
+    def pa(k):
+        return "PA %d %d %s - - - - -" % (k, vrf[k], st[k])
+    ops = []
+    first = list(range(1, ns))
+    rng.shuffle(first)
+    for k in first[:rng.randint(2, len(first))]:
+        ops.append(pa(k))
+        if rng.random() < 0.3:
+            ops.append("PI %d %d" % (k, rng.randint(lo, lo + n - 1)))
+    started = [int(o.split()[1]) for o in ops if o.startswith("PA")]
+    for _ in range(rng.randint(1, 3)):
+        k = rng.choice(started)
+        ops.append(pa(k))                       # re-authentication
+    leave = started[:]
+    rng.shuffle(leave)
+    for k in leave[:rng.randint(1, len(leave))]:
+        ops.append("PT %d" % k)
+    for k in range(1, ns + 1):
+        if k not in started or rng.random() < 0.3:
+            ops.append(pa(k))
+    return " ".join(toks) + " ; " + " ; ".join(ops)
+
+
 def gen_cases(rng, tier, budget):
     n = budget or (700 if tier == "quick" else 20000)
     return ([gen_one(rng) for _ in range(n)] + [gen_churn(rng, False) for _ in range(n // 5)] +
-            [gen_b(rng) for _ in range(n // 2)] + [gen_churn(rng, True) for _ in range(n // 7)])
+            [gen_b(rng) for _ in range(n // 2)] + [gen_churn(rng, True) for _ in range(n // 7)] +
+            [gen_reauth(rng) for _ in range(n // 7)])
 
 
 # ------------------------------------------------------------------ parsing helpers
@@ -505,7 +553,7 @@ def vrf_blind(case, ops, sub, il, ml):
         if len(x) > 3 and x[1] == sub and x[0] in ("PA", "ID", "IQ", "BA") and x[3] != "-":
             a = int(x[3])
             hit = [pv for fam, lo, hi, pv in ranges if fam == "4" and lo <= a <= hi]
-            return bool(hit) and vrf is not None and all(pv != vrf for pv in hit) and il == ml
+            return vrf is not None and any(pv != vrf for pv in hit)
     return False
 
 
